@@ -386,6 +386,18 @@ class Gen:
                     p, tt = self.flags(l, x)
                     return E("mcall", ty, p, tt, recv=l, m="append", args=[x])
                 c += [append]
+                if self.o.closures and not self.in_closure and depth >= 2:
+                    def mapf():
+                        src_ty = r.choice([INT, STR])
+                        l = self.expr(["List", src_ty], d, eff)
+                        lam = self.lambda_(["Fun", [src_ty], ty[1]], d)
+                        return E("mcall", ty, l["pure"], l["total"], recv=l, m="map", args=[lam])
+
+                    def filt():
+                        l = self.expr(ty, d, eff)
+                        lam = self.lambda_(["Fun", [ty[1]], BOOL], d)
+                        return E("mcall", ty, l["pure"], l["total"], recv=l, m="filter", args=[lam])
+                    c += [mapf, filt]
                 if ty[1] == INT:
                     def rng_():
                         a = r.choice([0, 1, 2])
@@ -449,6 +461,13 @@ class Gen:
                 s = self.stmt(depth - 1, simple=True)
                 body += s
             pure = total = False
+        elif depth >= 1 and r.random() < 0.35:
+            # pure local bindings (often shadowing an outer name, possibly using it on the right-hand side)
+            for _ in range(r.choice([1, 1, 2])):
+                lt = r.choice([INT, INT, STR, BOOL])
+                e = self.expr(lt, depth - 1, False)
+                v = self.declare(self.pick_name(), lt, False)
+                body.append({"k": "let", "name": v.name, "bid": v.bid, "ann": None, "e": e})
         fin = self.final_expr(ty, depth, eff)
         body.append({"k": "expr", "e": fin})
         self.pop()
